@@ -60,6 +60,10 @@ impl C01 {
                 l.push(L::Keys { admin: true, pat });
             }
         }
+        // a key that IS the prefix / the suffix / the word of the pattern
+        for pat in ["ab*", "*ab", "ab"] {
+            l.push(L::Keys { admin: false, pat });
+        }
         // patterns of every form (contains / prefix / suffix) that reach the names of $$ keys
         for pat in ["tok", "*en", "$", "$*", "*ken", "$$token", "o"] {
             l.push(L::Keys { admin: false, pat });
